@@ -38,7 +38,17 @@ def kani_for(pid, tier):
     return out
 
 
-prop('C09', ['core'],
+prop('C09', ['core', 'eslice'],
      nd='u128/f32/f64 writers are not in the API. LEB128 functional value is proved by Kani on EndianSlice (complete) and assumed as the '
         'contract of the R-DELEGATE trait methods in Verus; the generic leb128::read::* bodies are proved in Verus for safety, '
         'termination, progress and frame only.')
+
+prop('C07', ['op'],
+     nd='whole-program equality with a reference interpreter for arbitrary-length programs (follows from the step contracts by '
+        'induction, not mechanised); nested call/entry-value evaluation is the caller\'s loop.')
+prop('C01', ['core', 'eslice', 'op'],
+     nd='entry points not extracted are listed in DESIGN.md 6 C01; stack depth is outside Verus (unbounded stack model).')
+
+prop('C10', ['core', 'eslice', 'op'],
+     nd='EndianReader over arbitrary user buffer types (the CloneStableDeref safety contract is the user\'s); AddressSanitizer-style '
+        'whole-run checks; positional clauses of EndianSlice are discharged by Kani on bounded buffers only.')
